@@ -111,6 +111,43 @@ func addressable(v *gen.Vocab, kind string, doc wire.V, toks []string, out *[]ad
 	}
 }
 
+// corrLookup ties the Lean model of the hand-written JSONLookup methods (Codec/Lookup.lean, one token) to the
+// methods: for every top-level member name of the encoding, and for two names that no part declares, the method's
+// answer (JSON-encoded) against the model's on the encoding.
+func corrLookup(c *Ctx, kind string, typed interface{}, enc wire.V) {
+	if c.Driver == "" || !c.HasOp("lookup") || enc.Kind != wire.Obj || !enc.InModel() {
+		return
+	}
+	lk, ok := typed.(interface {
+		JSONLookup(string) (interface{}, error)
+	})
+	if !ok {
+		return // contact, license: reflection only
+	}
+	toks := []string{"zz-not-a-member", "x-zz-absent"}
+	for _, m := range enc.O {
+		toks = append(toks, m.K)
+	}
+	for _, tok := range toks {
+		var got interface{}
+		var err error
+		if pan := safely(func() { got, err = lk.JSONLookup(tok) }); pan != "" {
+			c.Fail(Failure{Kind: "crash", Sig: "C15:panic", What: "JSONLookup panicked: " + pan, Case: map[string]interface{}{"kind": kind, "token": tok}})
+			continue
+		}
+		impl := "error"
+		if err == nil {
+			b, merr := json.Marshal(got)
+			if merr != nil {
+				continue
+			}
+			impl = string(b)
+		}
+		c.Corr(map[string]interface{}{"op": "lookup", "kind": kind, "doc": enc.Wire(), "tok": tok}, impl, "json",
+			map[string]interface{}{"kind": kind, "token": tok, "encoding": json.RawMessage(enc.Text())})
+	}
+}
+
 func classifyC15(a addr) string {
 	last := ""
 	if len(a.toks) > 0 {
@@ -157,6 +194,7 @@ func runC15(c *Ctx) {
 			continue
 		}
 		corrNorm(c, kind, doc) // the JSON form the pointers are evaluated on is the codec model's output
+		corrLookup(c, kind, typed, ev)
 		var addrs []addr
 		addressable(v, kind, ev, nil, &addrs)
 		for _, a := range addrs {
